@@ -217,7 +217,8 @@ pub fn build_tcp(sig: &TSig, request: bool, v4: bool, hops: u8, r: &mut Rng, ep:
             src,
             dst,
             ttl,
-            tos: if ecn_ip { 0x02 } else { 0 },
+            // the DiffServ code point is no part of any signature: AF11, AF21, AF41, EF, CS1, any
+            tos: (*r.pick(&[0u8, 0, 0, 0x0a, 0x12, 0x22, 0x2e, 0x08, 0x3f, 0x01]) << 2) | if ecn_ip { 0x02 } else { 0 },
             id,
             flags: if df { 0b010 } else { 0 } | if has(q, &Quirk::MustBeZero) { 0b100 } else { 0 },
             options: vec![1; sig.olen as usize],
@@ -236,7 +237,7 @@ pub fn build_tcp(sig: &TSig, request: bool, v4: bool, hops: u8, r: &mut Rng, ep:
             src: "2001:db8::10".parse().unwrap(),
             dst: "2001:db8::20".parse().unwrap(),
             hop: ttl,
-            tclass: if ecn_ip { 0x02 } else { 0 },
+            tclass: (*r.pick(&[0u8, 0, 0, 0x0a, 0x12, 0x22, 0x2e, 0x08, 0x3f, 0x01]) << 2) | if ecn_ip { 0x02 } else { 0 },
             flow: if has(q, &Quirk::FlowID) { 0x12345 } else { 0 },
             ..Default::default()
         })
